@@ -79,10 +79,14 @@ CHECK_DEADLOCK FALSE
 
 # whole PeerConnections observed from the network (flag derivation from the transport mode, DTLS-SRTP / SDES key
 # installation, real socket paths): G-edge over (mode, phase) plus G-sim sequences with their real history
-PC_OPS = ["Push", "Raw", "InClearRtp", "InClearRtcp", "InForged", "InValid", "Keys", "Close"]
+PC_OPS = ["Push", "Raw", "InClearRtp", "InClearRtcp", "InForged", "InValid", "Keys", "Close",
+          "InValidNack", "Gap", "KeyFrame", "Report"]
+PC_OPS_FAST = [o for o in PC_OPS if o != "Report"]   # a sender report takes 3 s to appear
 PC = {
-    "quick": [("pc/edges", dict(MaxLen=6), {}), ("pc/sim-len7", dict(MaxLen=7), dict(simulate=4, depth=8))],
-    "thorough": [("pc/edges", dict(MaxLen=6), {}), ("pc/sim-len9", dict(MaxLen=9), dict(simulate=60, depth=10))],
+    "quick": [("pc/edges", dict(MaxLen=6, Ops=PC_OPS), {}),
+              ("pc/sim-len7", dict(MaxLen=7, Ops=PC_OPS_FAST), dict(simulate=3, depth=8))],
+    "thorough": [("pc/edges", dict(MaxLen=6, Ops=PC_OPS), {}),
+                 ("pc/sim-len9", dict(MaxLen=9, Ops=PC_OPS), dict(simulate=40, depth=10))],
 }
 
 
@@ -92,7 +96,7 @@ def write_pc_cfg(path, c, emit, deviations=()):
 CONSTANTS
   Modes = {{"WebRtc", "Srtp", "Rtp"}}
   MaxLen = {c['MaxLen']}
-  Ops = {setstr(PC_OPS)}
+  Ops = {setstr(c.get('Ops', PC_OPS))}
   Deviations = {setstr(deviations)}
 VIEW view
 INVARIANTS TypeOK
@@ -178,6 +182,7 @@ def replay_file(ck, beh_path, label, tier, extra_env=None, mode="replay", binary
     summ = {"behaviours": 0, "steps": 0, "datagrams": 0, "deliveries": 0, "diverged": 0, "late": 0, "stale": 0,
             "unspecified": 0, "ref_agree": 0, "ref_disagree": 0, "foreign": 0, "protected": 0, "clear": 0,
             "inconclusive": 0, "retries": 0}
+    sources = {}
     ref_seen = set()
     for i, p in enumerate(procs):
         if p.returncode != 0:
@@ -188,6 +193,8 @@ def replay_file(ck, beh_path, label, tier, extra_env=None, mode="replay", binary
                 got_summary = True
                 for k in summ:
                     summ[k] += r.get(k, 0)
+                for k, v in (r.get("sources") or {}).items():
+                    sources[k] = sources.get(k, 0) + v
             elif r.get("type") == "divergence":
                 if r.get("rule") == "EXT" and r.get("field") == "reference":
                     if r["op"] not in ref_seen and not any(d.get("field") == "reference" and d.get("op") == r["op"]
@@ -202,6 +209,7 @@ def replay_file(ck, beh_path, label, tier, extra_env=None, mode="replay", binary
         if not got_summary:
             raise vlib.ToolError(f"gate replayer shard {i} wrote no summary")
         os.remove(outs[i])
+    summ["sources"] = sources
     return summ
 
 
@@ -487,6 +495,7 @@ def run(tier):
         ck.notes.append(f"{label}: {res['counts']['EDGE']} connection scenarios, {summ['steps']} steps, {summ['datagrams']} media "
                         f"datagrams of the observed endpoint classified ({summ['protected']} protected, {summ['clear']} clear - "
                         f"the clear ones in plain-RTP control scenarios), {summ['deliveries']} deliveries traced, "
+                        f"egress sources seen: {summ['sources']}; "
                         f"{summ['retries']} set-ups repeated because the connection did not come up, "
                         f"{summ['inconclusive']} scenarios inconclusive")
         os.remove(edges)
